@@ -184,6 +184,18 @@ type backendRun struct {
 	plog  *pathLog
 	// contents the driver committed under a root ("v t id"), for classifying read-backs
 	rootCont map[string]string
+	// live: long-lived trees (as the consensus and runtime state trees are): the tree object that
+	// committed tag T is kept and used again for a `commit … live` candidate derived from T, so that
+	// pointers resident in memory (with the database positions they were loaded from or stored at)
+	// carry over from version to version instead of being re-read from the database.
+	live map[string]mkvs.Tree
+}
+
+func (b *backendRun) dropLive() {
+	for k, t := range b.live {
+		t.Close()
+		delete(b.live, k)
+	}
 }
 
 func (b *backendRun) addKnown(r rootRec) {
@@ -373,14 +385,27 @@ func (b *backendRun) doCommit(w []string) (skip bool, opLines []string) {
 			ndb = &plogDB{NodeDB: b.db, log: b.plog, ht: b.ht}
 		}
 		var tr mkvs.Tree
-		if src == nil {
+		keep := len(w) == 7 && w[6] == "live"
+		if lt, ok := b.live[srcTag]; ok && keep && src != nil && src.t == t {
+			tr = lt
+			delete(b.live, srcTag)
+		} else if src == nil {
 			tr = mkvs.New(nil, ndb, rootType(t))
 		} else {
 			r := src.root()
 			r.Type = rootType(t)
 			tr = mkvs.NewWithRoot(nil, ndb, r)
 		}
-		defer tr.Close()
+		defer func() {
+			if keep && hset {
+				if old, ok := b.live[tag]; ok {
+					old.Close()
+				}
+				b.live[tag] = tr
+				return
+			}
+			tr.Close()
+		}()
 		for _, kv := range seq {
 			var err error
 			if kv[1] == "" {
@@ -556,13 +581,14 @@ func runBackend(kind string, ops []string, ht *hashTable, withNodeLog bool) *run
 	}
 	b := &backendRun{kind: kind, dir: dir, db: db, ht: ht, tags: map[string]rootRec{}, cont: map[string]contents{}, out: out, last: -1, fin: map[string]bool{}}
 	b.rootCont = map[string]string{}
+	b.live = map[string]mkvs.Tree{}
 	if withNodeLog {
 		b.nlog = newNodeLog()
 	}
 	if kind == "pathbadger" && pathModelEnabled {
 		b.plog = &pathLog{}
 	}
-	defer func() { b.db.Close() }()
+	defer func() { b.dropLive(); b.db.Close() }()
 	for _, op := range ops {
 		w := strings.Fields(op)
 		if len(w) == 0 {
@@ -571,13 +597,24 @@ func runBackend(kind string, ops []string, ht *hashTable, withNodeLog bool) *run
 		var skip bool
 		var opLines []string
 		switch {
-		case w[0] == "commit" && len(w) == 6:
+		case w[0] == "commit" && (len(w) == 6 || (len(w) == 7 && w[6] == "live")):
 			skip, opLines = b.doCommit(w)
 		case w[0] == "finalize" && len(w) == 3:
 			skip, opLines = b.doFinalize(w)
 		case w[0] == "prune" && len(w) == 2:
 			skip, opLines = b.doPrune(w)
+		case w[0] == "compact":
+			// compaction of the storage engine on the open database (no reopen: the discard timestamp
+			// and everything else the backend keeps in memory stay as the history left them); like
+			// reopen it must not change any answer, and the models treat it as the same no-op line
+			if cerr := b.db.Compact(); cerr != nil {
+				out.panicked = "compact: " + cerr.Error()
+				return out
+			}
+			out.lines = append(out.lines, "reopen")
+			opLines = []string{"reopen"}
 		case w[0] == "reopen":
+			b.dropLive()
 			b.db.Close()
 			b.db, err = openDB(kind, dir)
 			if err != nil {
@@ -968,6 +1005,20 @@ func genCase(r *hlib.Rng, nver int, res *hlib.Result) []string {
 	// version (badger only; pathbadger refuses): one is continued, the other stays a lone root that
 	// inherits nodes of older versions which the continued line still needs when it is pruned.
 	twoState := r.Chance(1, 4)
+	// In half of the cases the state candidates are committed through long-lived trees.
+	compacting := r.Chance(1, 4)
+	if compacting {
+		res.Count("gen:case-with-compaction")
+		// long enough for the storage engine to move tables out of level 0 (five flushes) and for
+		// later versions to be compacted into them
+		if nver < 13 {
+			nver = 13
+		}
+	}
+	liveTrees := r.Chance(1, 2)
+	if liveTrees {
+		res.Count("gen:case-with-long-lived-trees")
+	}
 	for i := 0; i < nver; i++ {
 		// --- candidates of the state type
 		ncand := 1 + r.Intn(3)
@@ -976,6 +1027,7 @@ func genCase(r *hlib.Rng, nver int, res *hlib.Result) []string {
 		}
 		var cands []string
 		var firstWrites []string
+		liveCand := ""
 		for c := 0; c < ncand; c++ {
 			src := prevState
 			k := r.Intn(100)
@@ -1010,6 +1062,22 @@ func genCase(r *hlib.Rng, nver int, res *hlib.Result) []string {
 			for j := 0; j < nw; j++ {
 				key := keys[r.Intn(len(keys))]
 				k3 := r.Intn(100)
+				if liveTrees && r.Chance(1, 3) {
+					// toggle an extension of a stored key: the stored key turns from a standalone leaf
+					// into the leaf embedded in a new internal node and back
+					ext := []string{"ab", "ac"}[r.Intn(2)]
+					if _, ok := base["a"]; ok {
+						if _, has := base[ext]; has {
+							ws = append(ws, ext+"=")
+						} else {
+							ws = append(ws, ext+"="+vals[r.Intn(len(vals))])
+						}
+						res.Count("gen:prefix-extension-toggle")
+						continue
+					}
+					key = "a"
+					k3 = 99
+				}
 				switch {
 				case k3 < 25:
 					ws = append(ws, key+"=")
@@ -1054,7 +1122,16 @@ func genCase(r *hlib.Rng, nver int, res *hlib.Result) []string {
 			tag := newTag()
 			c2, _ := applyWrites(base, wl)
 			cont[tag] = c2
-			ops = append(ops, fmt.Sprintf("commit %s 0 %d %s %s", tag, v, src, wl))
+			liveFlag := ""
+			if liveTrees && (r.Chance(2, 3) || (liveCand == "" && src == prevState)) {
+				// committed by the long-lived tree that holds `src` (if any) and kept for later versions
+				liveFlag = " live"
+				res.Count("gen:long-lived-tree-commit")
+			}
+			if liveFlag != "" && liveCand == "" && src == prevState {
+				liveCand = tag // this candidate is committed by the tree that has held the finalized line so far
+			}
+			ops = append(ops, fmt.Sprintf("commit %s 0 %d %s %s%s", tag, v, src, wl, liveFlag))
 			cands = append(cands, tag)
 		}
 		// --- candidates of the io type (always from nothing; may share keys with the state tree)
@@ -1111,6 +1188,10 @@ func genCase(r *hlib.Rng, nver int, res *hlib.Result) []string {
 		}
 		// --- finalize
 		pick := cands[r.Intn(len(cands))]
+		if liveCand != "" && r.Chance(3, 4) {
+			pick = liveCand // the long-lived tree's line is the one that gets finalized, version after version
+			res.Count("gen:finalize-long-lived-line")
+		}
 		fl := []string{pick}
 		if twoState && len(cands) > 1 && r.Chance(2, 3) {
 			other := cands[r.Intn(len(cands))]
@@ -1151,6 +1232,16 @@ func genCase(r *hlib.Rng, nver int, res *hlib.Result) []string {
 			ops = append(ops, fmt.Sprintf("prune %d", v)) // latest
 		}
 		if r.Chance(1, 10) {
+			ops = append(ops, "reopen")
+		}
+		if compacting {
+			// most versions reach the tables (reopen flushes the memtable); the storage engine is
+			// compacted, on the open database, every few versions
+			if r.Chance(1, 3) {
+				// compaction right after this version's Finalize/Prune, on the open database
+				ops = append(ops, "compact")
+				res.Count("gen:compact")
+			}
 			ops = append(ops, "reopen")
 		}
 		v++
